@@ -224,6 +224,11 @@ class _Num(object):
     return sym_floor(self)
   def rint(self):
     return sym_round(self)
+  # math.ceil / math.floor / round protocol (numpy's object loops for ceil/floor go through math.*)
+  def __ceil__(self): return sym_ceil(self)
+  def __floor__(self): return sym_floor(self)
+  def __trunc__(self): return sym_trunc(self) if isinstance(self, SymReal) else self
+  def __round__(self, n=None): return sym_round(self)
 
 
 class SymInt(_Num):
@@ -233,13 +238,11 @@ class SymInt(_Num):
     if base in (2, 2.0):
       return pow2(self)
     raise TypeError("only 2**sym supported")
-  def __int__(self): return self     # int(x) with the builtin cannot return a proxy: modules shadow `int`
 
 
 class SymReal(_Num):
   def __rpow__(self, base):
     raise TypeError("2**real")
-  def __float__(self): raise TypeError("symbolic real forced to float")
 
 
 # --- exponentials as finite tables -----------------------------------------------------------
